@@ -50,6 +50,8 @@ structure Env where
   prematch : Bool                      -- some changing handler's filters accept the object at all
   changeReq : Bool                     -- `registry._changing.requires_finalizer(cause)`: a mandatory deletion handler prematches
   foreignFins : Bool                   -- somebody else's finalizer is on the object (it survives our release)
+  constPatch : Bool                    -- every cycle's patch carries content that changes nothing on the server
+                                       -- (e.g. the constant result of an `on.event` handler, stored again each time)
   lat : Tick                           -- PATCH round trip + delivery delay of its echo
   cap : Tick                           -- `application.WAITING_KEEPALIVE_INTERVAL`
 
@@ -106,7 +108,10 @@ def finIn (env : Env) (s : State E) (chgDelays : Bool) : C06.In :=
 def decisionOf (env : Env) (s : State E) : C06.Decision :=
   C06.decision (finIn env s (!(pass env s).delays.isEmpty))
 
-/-- did the handling pass put anything into the patch (records or last-handled)? -/
+/-- requests that change nothing: the constant part of the patch, sent when nothing else goes with it -/
+def cp (env : Env) : Nat := if env.constPatch then 1 else 0
+
+/-- did the handling pass put anything into the patch that CHANGES the object (records or last-handled)? -/
 def changedOf (env : Env) (s : State E) : Bool :=
   (ids env).any (fun i => (pass env s).P' i != s.P i) ||
     decide ((if (pass env s).closed then some s.ess else s.base) ≠ s.base)
@@ -117,22 +122,22 @@ def nextState (env : Env) (s : State E) (now' : Tick) (pend : Bool) (w : Nat) : 
            fullyHandled := (s.fullyHandled || (pass env s).closed), now := now', pending := pend, writes := w }
 
 /-- A turn in which `process_changing_cause` is reached and the object is not released: the pass, then
-    `application.apply`. -/
+    `application.apply` (as of repo fix 7224f57): a patch that CHANGED the object → its echo is the next
+    event, a pending sleep is skipped; otherwise (no patch, or a patch that changed nothing: no event will
+    follow it) delays → sleep (capped) → the touch-dummy PATCH → its echo; else nothing is pending. -/
 def handleTurn (env : Env) (s : State E) : State E :=
   if changedOf env s then
-    -- patch is non-empty: PATCH; a pending sleep is skipped; the echo re-triggers the loop
     nextState env s (s.now + env.lat) true (s.writes + 1)
   else
     match minDelay (pass env s).delays with
     | some d =>
-        -- nothing to patch, but delayed handlers: sleep (capped), then the touch-dummy PATCH
-        nextState env s (s.now + (if d > env.cap then env.cap else d) + env.lat) true (s.writes + 1)
-    | none => nextState env s s.now false s.writes
+        nextState env s (s.now + (if d > env.cap then env.cap else d) + env.lat) true (s.writes + cp env + 1)
+    | none => nextState env s s.now false (s.writes + cp env)
 
 /-- The closing pass of a deletion: the patch (records purged, last-handled) is merge-patched if it has
     content, then the JSON patch removes the own finalizer; with no other finalizer the object is gone. -/
 def releaseTurn (env : Env) (s : State E) : State E :=
-  { nextState env s (s.now + env.lat) env.foreignFins (s.writes + (if changedOf env s then 2 else 1)) with
+  { nextState env s (s.now + env.lat) env.foreignFins (s.writes + (if changedOf env s then 2 else cp env + 1)) with
     blocked := false, gone := !env.foreignFins }
 
 /-- One turn of the closed loop: consume the pending event, process it, `apply`. -/
@@ -143,12 +148,12 @@ def loopStep (env : Env) (s : State E) : State E :=
     let d := decisionOf env s
     if d.add then
       -- "Adding the finalizer, thus preventing the actual deletion": no handlers this turn
-      { s with blocked := true, now := s.now + env.lat, pending := true, writes := s.writes + 1 }
+      { s with blocked := true, now := s.now + env.lat, pending := true, writes := s.writes + cp env + 1 }
     else if d.removeUnneeded then
       -- "Removing the finalizer, as there are no handlers requiring it": no handlers this turn
       let g := s.marked && !env.foreignFins
-      { s with blocked := false, gone := g, now := s.now + env.lat, pending := !g, writes := s.writes + 1 }
-    else if !d.handlersRun then { s with pending := false }   -- "be blind to it, store no state"
+      { s with blocked := false, gone := g, now := s.now + env.lat, pending := !g, writes := s.writes + cp env + 1 }
+    else if !d.handlersRun then { s with pending := false, writes := s.writes + cp env }   -- "be blind to it, store no state"
     else if d.release then releaseTurn env s
     else handleTurn env s
 
